@@ -326,3 +326,8 @@ mod tests {
         assert!(matches!(folded, Expr::Column(_)));
     }
 }
+
+// Verification hook (/verif): contract proof harnesses; compiled only by `cargo kani`.
+#[cfg(kani)]
+#[path = "/verif/kani/constant_folding.rs"]
+mod verif_kani;
